@@ -485,3 +485,77 @@ def rowwise_units(keys, tier):
                        % (c['lot'], c['lot'], c['smin'], c['smax'], c['sstep'], c['max_iter'], c['pratio']),
                        ASSUME, STUBS + ['field_optimization_* -> concrete square grid, floor(L/s)+1 per side'], params=c, max_seconds=1500))
     return us
+
+
+# -- the limits the searches work with are the ones the caller asked for ---------------------------------------------------------
+def limits_setup():
+    import ghedesigner.simulation as SIM
+    from symx import sym_float, sym_int
+    from symx.runner import shadow
+    from . import c17
+    c17.setup()
+    shadow(SIM, 'int', sym_int)
+    shadow(SIM, 'float', sym_float)
+
+
+def limits_fn(geo, cap, cont):
+    """manager -> SimulationParameters -> design class -> search class: the temperature limits, the height window, the borehole cap and
+    the continue flag given to set_simulation_parameters are the ones the search object is constructed with (real setters, real
+    SimulationParameters and Design* constructors; candidate generators and search classes are recorders), and BaseGHE.cost measures
+    the excess against exactly those limits.  Pattern A (the searches on abstract temperatures) takes the limits from this object."""
+    def fn(e):
+        from types import SimpleNamespace as NS
+
+        import ghedesigner.design as DS
+        import ghedesigner.ground_heat_exchangers as G
+        import ghedesigner.manager as M
+        from ghedesigner.simulation import SimulationParameters
+        from symx import Sym, sym_max
+        from symx.runner import shadow
+
+        from . import c17
+        v = c17.V(e=e)
+        m = c17.configure(M, v, geo, 'SINGLEUTUBE', dict(cap=cap, cont=cont))
+        got = {}
+
+        def recorder(name):
+            def ctor(*a, **k):
+                sps = [x for x in list(a) + list(k.values()) if isinstance(x, SimulationParameters)]
+                got['sp'] = sps[0] if len(sps) == 1 else None
+                return NS()
+            return ctor
+        for name in ('Bisection1D', 'Bisection2D', 'BisectionZD', 'RowWiseModifiedBisectionSearch'):
+            shadow(DS, name, recorder(name))
+        m._design.find_design()
+        sp = got.get('sp')
+        if sp is None:
+            return False
+        inp = e.inputs
+
+        def same(x, name):
+            return x == Sym(inp[name])          # semantic equality, decided by the solver (a value-preserving rewrite is not a violation)
+        cs = [same(sp.max_EFT_allowable, 'max_eft'), same(sp.min_EFT_allowable, 'min_eft'), same(sp.max_height, 'max_h'), same(sp.min_height, 'min_h'),
+              sp.continue_if_design_unmet is bool(cont), (same(sp.max_boreholes, 'cap') if cap else sp.max_boreholes is None),
+              sp.start_month == 1, same(sp.end_month, 'months')]
+        ghe = G.BaseGHE.__new__(G.BaseGHE)
+        ghe.sim_params = sp
+        mx, mn = e.real('eft_max', -50, 150), e.real('eft_min', -50, 150)
+        shadow(G, 'max', sym_max)
+        up, lo = Sym(inp['max_eft']), Sym(inp['min_eft'])
+        cs.append(ghe.cost(mx, mn) == sym_max(mx - up, lo - mn))
+        return conj(cs)
+    return fn
+
+
+def limits_units(tier):
+    from symx.runner import Unit
+    us = []
+    geos = ('NEARSQUARE', 'RECTANGLE', 'BIRECTANGLE', 'BIZONEDRECTANGLE', 'BIRECTANGLECONSTRAINED', 'ROWWISE')
+    for k, geo in enumerate(geos):
+        for cap, cont in ([(True, True), (False, False)] if tier == 'thorough' else [((k % 2) == 0, (k % 3) == 0)]):
+            us.append(Unit('limits_chain_%s_cap%d_cont%d' % (geo, cap, cont), limits_fn(geo, cap, cont), None, limits_setup,
+                           ['manager.py:GHEManager.set_simulation_parameters', 'simulation.py:SimulationParameters.__init__', 'manager.py:GHEManager.set_design',
+                            'design.py:Design*.__init__', 'design.py:Design*.find_design', 'ground_heat_exchangers.py:BaseGHE.cost'],
+                           'design method %s; both temperature limits, the height window, the horizon%s and every other numeric setting symbolic' % (geo, ', the borehole cap' if cap else ''),
+                           ['floats as reals'], ['candidate generators -> empty lists; search classes -> recorders of their constructor arguments']))
+    return us
